@@ -224,13 +224,17 @@ def run_history(ctx, rng):
         yred = (w > 0).astype(int)
         if isinstance(p, DummyClassifier):
             ctx.ev("dummy_predictors_seen")
-            ctx.check(len(set(yred.tolist())) == 1, "dummy_predictor_although_relabelled_y_has_two_classes", column=repr(col), wit=wit)
+            live = np.abs(w) > 1e-9 * max(1.0, float(np.abs(w).max()))
+            ctx.check(len(set(yred[live].tolist())) <= 1, "dummy_predictor_although_relabelled_y_has_two_classes", column=repr(col), wit=wit)
             continue
         if not hasattr(p, "fit_y_"):
             ctx.ev("predictor_without_fit_record")
             continue
         ctx.ev("learner_fit_records_compared")
-        ctx.check(len(p.fit_y_) == ds.n and p.fit_y_.tolist() == yred.tolist(), "learner_not_fitted_on_labels_1_w_positive", column=repr(col),
+        # rows whose weight is zero up to rounding (objective and constraint weights cancel exactly) carry no information:
+        # their label is decided by the last bit and their sample weight is ~0
+        live = np.abs(w) > 1e-9 * max(1.0, float(np.abs(w).max()))
+        ctx.check(len(p.fit_y_) == ds.n and p.fit_y_[live].tolist() == yred[live].tolist(), "learner_not_fitted_on_labels_1_w_positive", column=repr(col),
                   fitted_y=p.fit_y_.tolist(), expected=yred.tolist(), w=w.tolist(), lam={repr(k): float(v) for k, v in lam.items()}, wit=wit)
         ctx.check(bool(np.allclose(_norm(p.fit_w_), _norm(w), rtol=1e-9, atol=1e-12)), "learner_sample_weight_not_proportional_to_abs_w",
                   column=repr(col), fitted_w=p.fit_w_.tolist(), expected_abs_w=np.abs(w).tolist(), wit=wit)
